@@ -1,8 +1,10 @@
 package core
 
 import (
+	"context"
 	"errors"
 	"fmt"
+	"strings"
 
 	"github.com/junioryono/godi/v4"
 	"github.com/junioryono/godi/v4/verifh/eng"
@@ -41,6 +43,23 @@ type tbTransient struct {
 }
 type tbLate struct{}
 
+// a singleton that keeps the built-ins it was constructed with
+type tbBI struct {
+	ctx context.Context
+	sc  godi.Scope
+	p   godi.Provider
+}
+type tbBIIn struct {
+	godi.In
+	Ctx context.Context
+	Sc  godi.Scope
+	P   godi.Provider
+}
+type tbBI2 struct{ in tbBIIn }
+
+func tbNewBI(ctx context.Context, sc godi.Scope, p godi.Provider) *tbBI { return &tbBI{ctx, sc, p} }
+func tbNewBI2(in tbBIIn) *tbBI2                                         { return &tbBI2{in} }
+
 type tbWorld struct {
 	builds   int // Build attempts started so far (constructors stamp what they make with it)
 	aCalls   int
@@ -66,8 +85,9 @@ func tbNewLate(b *tbB, x *tbX) (*tbLate, error) {
 	return &tbLate{}, nil
 }
 
-// RunTwoBuilds: second Build succeeds / fails; the second provider stays open / is closed.
-func RunTwoBuilds(c *eng.Ctx, next func() (int, bool)) {
+// RunTwoBuilds: second Build succeeds / fails; the second provider stays open / is closed. prop
+// C01 judges identity and constructor counts, prop C18 the built-ins the singletons received.
+func RunTwoBuilds(c *eng.Ctx, prop string, next func() (int, bool)) {
 	for _, variant := range []string{"second-build-succeeds", "second-build-succeeds-and-is-closed", "second-build-fails", "three-builds"} {
 		idx, mine := next()
 		if !mine {
@@ -75,7 +95,10 @@ func RunTwoBuilds(c *eng.Ctx, next func() (int, bool)) {
 		}
 		c.R.Begin(idx)
 		viol := func(clause, detail string) {
-			c.R.Violation(eng.Violation{Prop: "C01", Clause: clause, Sig: "C01/" + clause + ":collection-built-again-while-the-first-provider-is-in-use:" + variant, Case: idx, CaseID: "two-builds-" + variant,
+			if (prop == "C18") != strings.HasPrefix(clause, "injected-") {
+				return
+			}
+			c.R.Violation(eng.Violation{Prop: prop, Clause: clause, Sig: prop + "/" + clause + ":collection-built-again-while-the-first-provider-is-in-use:" + variant, Case: idx, CaseID: "two-builds-" + variant,
 				Detail: variant + ": " + detail, Replay: map[string]any{"fixture": "two-builds", "variant": variant}})
 		}
 		func() {
@@ -99,6 +122,8 @@ func RunTwoBuilds(c *eng.Ctx, next func() (int, bool)) {
 			must(coll.AddSingleton(tbNewMember2, godi.Group("g")))
 			must(coll.AddSingleton(tbNewOut))
 			must(coll.AddSingleton(tbNewLate))
+			must(coll.AddSingleton(tbNewBI))
+			must(coll.AddSingleton(tbNewBI2))
 			must(coll.AddScoped(tbNewScoped))
 			must(coll.AddTransient(tbNewTransient))
 			if variant == "second-build-fails" {
@@ -176,6 +201,36 @@ func RunTwoBuilds(c *eng.Ctx, next func() (int, bool)) {
 					viol("identity", fmt.Sprintf("%s: %s is no longer the instance this provider's own Build constructed (generation %d; now generation %d for *tbA)", who, diff, a.a.gen, b.a.gen))
 				}
 			}
+			checkBI := func(p godi.Provider, who string) {
+				root, e1 := godi.Resolve[godi.Scope](p)
+				rctx, e2 := godi.Resolve[context.Context](p)
+				bi, e3 := godi.Resolve[*tbBI](p)
+				bi2, e4 := godi.Resolve[*tbBI2](p)
+				if e1 != nil || e2 != nil || e3 != nil || e4 != nil {
+					viol("injected-unavailable", fmt.Sprintf("%s: %v %v %v %v", who, e1, e2, e3, e4))
+					return
+				}
+				for i, got := range []struct {
+					ctx context.Context
+					sc  godi.Scope
+					p   godi.Provider
+				}{{bi.ctx, bi.sc, bi.p}, {bi2.in.Ctx, bi2.in.Sc, bi2.in.P}} {
+					form := []string{"parameters", "parameter-object fields"}[i]
+					if got.sc != root {
+						viol("injected-scope-wrong", fmt.Sprintf("%s: the singleton (%s) holds a scope that is not this provider's root scope", who, form))
+					}
+					if got.p != p {
+						viol("injected-provider-wrong", fmt.Sprintf("%s: the singleton (%s) holds another provider", who, form))
+					}
+					if got.ctx != rctx {
+						viol("injected-context-wrong", fmt.Sprintf("%s: the singleton (%s) holds a context that is not this provider's root context", who, form))
+					} else if got.ctx.Err() != nil {
+						viol("injected-context-wrong", fmt.Sprintf("%s: the singleton's context is done (%v) while its provider is open", who, got.ctx.Err()))
+					} else if fs, err := godi.FromContext(got.ctx); err != nil || fs != root {
+						viol("injected-context-wrong", fmt.Sprintf("%s: FromContext on the singleton's context does not return this provider's root scope (%v)", who, err))
+					}
+				}
+			}
 			s1, ok := take(p1, "first provider, before the second Build")
 			if !ok {
 				return
@@ -228,6 +283,7 @@ func RunTwoBuilds(c *eng.Ctx, next func() (int, bool)) {
 					}
 				}
 			}
+			checkBI(p1, "first provider, after the later Build(s)")
 			again, ok := take(p1, "first provider, after the later Build(s)")
 			if !ok {
 				return
